@@ -14,6 +14,8 @@ import BevySyncModel.Slice.Fix
 import BevySyncModel.Slice.Filter
 import BevySyncModel.Slice.Ent
 import BevySyncModel.Slice.Conn
+import BevySyncModel.Slice.Asset
+import BevySyncModel.Slice.Mat
 /-! `bsmodel`: runs the executable model definitions on the cases the Rust harness prints, one line
 in, one line out (`ok <id>` / `MISMATCH <id> <what>`).  Lines starting with `#` are ignored.
 Only model files are imported (no proofs, no Mathlib), so this links as a native executable.
@@ -655,6 +657,83 @@ def checkConn (toks : List String) : String :=
     go {} {} 0 (script.splitOn ";")
   | _ => "MISMATCH parse conn"
 
+/-! ### uuid assets of a downloadable class (C06): `asset <id> <countTokens> <skipServed> <nclients> <script>`;
+script tokens ;-separated: `p:<peer>:<v>` peer (0 = host) publishes content `v`, `r` one fair round of the
+model, `d` the traffic drains (fair rounds until nothing moves), `x:<peer>:<content>:<served>:<tokens>` what
+the implementation holds at that drain (`-` = nothing) -/
+def optName : Option Nat → String
+  | none => "-"
+  | some v => toString v
+
+def checkAsset (toks : List String) : String :=
+  match toks with
+  | [ct, sk, n, script] =>
+    match n.toNat? with
+    | none => "MISMATCH parse asset n"
+    | some n =>
+      let ct := ct == "1"
+      let sk := sk == "1"
+      let ids := (List.range n).map (· + 1)
+      let s0 : Asset.State := { clients := ids.map (fun i => { id := i }) }
+      let rec go (s : Asset.State) (k : Nat) : List String → String
+        | [] => "ok"
+        | t :: rest =>
+          match t.splitOn ":" with
+          | ["p", pr, v] =>
+            match pr.toNat?, v.toNat? with
+            | some pr, some v =>
+              go (Asset.step ct sk s (if pr = 0 then .publishH v else .publishC pr v)) (k + 1) rest
+            | _, _ => "MISMATCH parse asset publish"
+          | ["r"] => go (Asset.run ct sk s (Asset.roundActs ids)) (k + 1) rest
+          | ["d"] => go (Asset.settle ct sk 64 s) (k + 1) rest
+          | ["x", pr, c, sv, tk] =>
+            match pr.toNat? with
+            | some pr =>
+              match Asset.peerOf s pr with
+              | some p =>
+                if optName p.content == c && optName p.served == sv && toString p.tokens == tk then go s (k + 1) rest
+                else s!"MISMATCH asset: after {k} script steps the model has peer {pr} at content {optName p.content} served {optName p.served} tokens {p.tokens}, the implementation at content {c} served {sv} tokens {tk}"
+              | none => "MISMATCH asset: no such peer"
+            | none => "MISMATCH parse asset x"
+          | _ => "MISMATCH parse asset script"
+      go s0 0 (script.splitOn ";")
+  | _ => "MISMATCH parse asset"
+
+/-! ### uuid materials (C06): `mat <id> <countTokens> <nclients> <script>`, script as for `asset`,
+`x:<peer>:<content>:<tokens>` -/
+def checkMat (toks : List String) : String :=
+  match toks with
+  | [ct, n, script] =>
+    match n.toNat? with
+    | none => "MISMATCH parse mat n"
+    | some n =>
+      let ct := ct == "1"
+      let ids := (List.range n).map (· + 1)
+      let s0 : Mat.State := { clients := ids.map (fun i => { id := i }) }
+      let rec go (s : Mat.State) (k : Nat) : List String → String
+        | [] => "ok"
+        | t :: rest =>
+          match t.splitOn ":" with
+          | ["p", pr, v] =>
+            match pr.toNat?, v.toNat? with
+            | some pr, some v =>
+              go (Mat.step ct s (if pr = 0 then .publishH v else .publishC pr v)) (k + 1) rest
+            | _, _ => "MISMATCH parse mat publish"
+          | ["r"] => go (Mat.run ct s (Mat.roundActs ids)) (k + 1) rest
+          | ["d"] => go (Mat.settle ct 64 s) (k + 1) rest
+          | ["x", pr, c, tk] =>
+            match pr.toNat? with
+            | some pr =>
+              match Mat.peerOf s pr with
+              | some p =>
+                if optName p.content == c && toString p.tokens == tk then go s (k + 1) rest
+                else s!"MISMATCH mat: after {k} script steps the model has peer {pr} at content {optName p.content} tokens {p.tokens}, the implementation at content {c} tokens {tk}"
+              | none => "MISMATCH mat: no such peer"
+            | none => "MISMATCH parse mat x"
+          | _ => "MISMATCH parse mat script"
+      go s0 0 (script.splitOn ";")
+  | _ => "MISMATCH parse mat"
+
 def handle (st : DState) (line : String) : DState × Option String :=
   let line := line.trimAscii.toString
   if line.isEmpty || line.startsWith "#" then (st, none)
@@ -683,6 +762,8 @@ def handle (st : DState) (line : String) : DState × Option String :=
         | "fixrun" => checkFixRun rest
         | "filter" => checkFilter rest
         | "conn" => checkConn rest
+        | "asset" => checkAsset rest
+        | "mat" => checkMat rest
         | _ => "MISMATCH unknown line kind"
       (st, some s!"{r} {id}")
     | _ => (st, some "MISMATCH parse ?")
